@@ -3,6 +3,8 @@ Script(cmds).evaluate(message, env_data) and Script.stack of /repo (public API o
 
   ev <env> <libsigs> <coresigs> <cmds>      (the two oracle tables are for the models; ignored here)
 answer: VALID | INVALID | UNIMPL | CRASH:<ExceptionType>, then the stack bottom..top ("." empty stack)
+  p2sh <pb|ph|pio|add> <scriptSig hex> <scriptPubKey hex>   raw bytes PARSED by the library, then evaluated (see run_p2sh)
+answer: as for ev
   ses <libsigs> <coresigs> <step> ...       several constructor / evaluate calls in one process (see run_session)
 answer: one token per step joined by ";"
 """
@@ -128,9 +130,42 @@ def in_child(fn):
     return join_child(*start_child(fn))
 
 
+def run_p2sh(form, sig_hex, spk_hex):
+    """a spend handed over as RAW BYTES: the library parses scriptSig + scriptPubKey and evaluates what it parsed
+         pb  Script.parse_bytes(unlock + lock)      ph  Script.parse_hex(...)      pio  Script.parse(BytesIO(...))
+         add Script.parse_bytes(unlock) + Script.parse_bytes(lock)"""
+    from io import BytesIO
+    sig_b, spk_b = unhx(sig_hex), unhx(spk_hex)
+    try:
+        if form == 'pb':
+            s = Script.parse_bytes(sig_b + spk_b)
+        elif form == 'ph':
+            s = Script.parse_hex((sig_b + spk_b).hex())
+        elif form == 'pio':
+            s = Script.parse(BytesIO(sig_b + spk_b))
+        elif form == 'add':
+            s = Script.parse_bytes(sig_b) + Script.parse_bytes(spk_b)
+        else:
+            return 'BADREQ'
+    except ScriptError:
+        return 'UNIMPL .'
+    except Exception as e:
+        return 'CRASH:%s .' % type(e).__name__
+    try:
+        r = s.evaluate(message=MESSAGE)
+        v = 'VALID' if r is True else 'INVALID' if r is False else 'ODD:%r' % (r,)
+    except ScriptError:
+        v = 'UNIMPL'
+    except Exception as e:
+        v = 'CRASH:' + type(e).__name__
+    return v + ' ' + stack_tok(s.stack)
+
+
 def dispatch(t):
     if t[0] == 'ses' and len(t) >= 4:
         return in_child(lambda: run_session(t[3:]))
+    if t[0] == 'p2sh' and len(t) == 4:
+        return run_p2sh(t[1], t[2], t[3])
     if t[0] != 'ev' or len(t) != 5:
         return 'BADREQ'
     s = Script(cmds_of_tok(t[4]))
